@@ -523,6 +523,24 @@ impl World {
                 discs.push(Disc { owners, sig: "atomicity:failed-call-changed-state".into(), msg: format!("the call returned Err but chain storage changed: {}", d), model_free: true });
             }
         }
+        // ---- model-free: funds told to a callee are funds it holds ("have already been moved from the
+        // sender to the callee, match the funds the contract is told about")
+        for e in act.trace.iter().filter(|e| matches!(e.kind, puppet::Kind::Execute | puppet::Kind::Instantiate) && !e.funds.is_empty()) {
+            if e.own_balance.first().map_or(false, |b| b.0.starts_with('<')) {
+                continue; // the balance probe itself failed (contract at a string that is no address)
+            }
+            let mut told: BTreeMap<&str, u128> = BTreeMap::new();
+            for (d, a) in &e.funds {
+                *told.entry(d.as_str()).or_insert(0) += a;
+            }
+            for (d, a) in told {
+                let held = e.own_balance.iter().find(|b| b.0 == d).map_or(0, |b| b.1);
+                if held < a {
+                    discs.push(Disc { owners: vec!["C05"], sig: "funds:told-but-not-held".into(), msg: format!("{} was told it received {}{} but holds only {}{} when its entry point runs", e.contract, a, d, held, d), model_free: true });
+                    break;
+                }
+            }
+        }
         // ---- top-level message order (execute_multi)
         if let Call::Multi(_, msgs, _) = &call {
             if msgs.len() > 1 {
@@ -1252,8 +1270,8 @@ impl Check for TreeCheck {
 /// C13: the cross product {string class} x {position} x {entry point} x {depth 0-2} x {reply_on},
 /// enumerated completely in every run.
 fn c13_grid() -> Vec<History> {
-    const KEYS: [&str; 19] = ["", " ", "\t", "\u{00a0}", "\u{3000}", "_x", " _x", "__", "\u{2003}_a", "x_", " a ", "é", "a", "a_b", "\u{2003}b", "action", "_contract_address", " _contract_address\n", "_"];
-    const TYPES: [&str; 15] = ["", " ", "a", " a ", "\t\n", "x ", "é", "ab", " ab ", "ev", "transfer", "✓", "wasm-x", "\ttransfer ", "\u{3000}日\u{3000}"];
+    const KEYS: [&str; 21] = ["", " ", "\t", "\u{00a0}", "\u{3000}", "_x", " _x", "__", "\u{2003}_a", "x_", " a ", "é", "a", "a_b", "\u{2003}b", "action", "_contract_address", " _contract_address\n", "_", "\u{b}", "\u{b}_k"];
+    const TYPES: [&str; 16] = ["", " ", "a", " a ", "\t\n", "x ", "é", "ab", " ab ", "ev", "transfer", "✓", "wasm-x", "\ttransfer ", "\u{3000}日\u{3000}", "\u{b}x"];
     #[derive(Clone, Copy)]
     enum Pos {
         AttrKey,
